@@ -165,3 +165,46 @@ def run(ctx):
         reach = g.reachable(0, removed_blocks=[fc[0][0]])
         ok = not [r for r in g.return_blocks() if r in reach]
     rep.check(r2, ok, 'get_tcb:calls-callback', 'get_tcb invokes its callback exactly once on every path: %s' % ok, '%s:%d' % (g.file, g.line))
+
+    r3 = rep.rule('C19-R3', 'inside the address-bearing field builders an address or port value never decides WHETHER an answer is given: every branch on such a value leads to an answer on all of its edges (Option-is-None safety checks excepted)', floor=3)
+    for fid in sorted(ALLOWED_READERS):
+        if fid == 'proto::repl':
+            continue
+        f = F.fn(fid)
+        sp = set(some_points(f))
+        # blocks where the function's result is set to None
+        nonep = set()
+        rty = f.locals[0]['ty']
+        for bi, b in enumerate(f.blocks):
+            if b['cleanup']:
+                continue
+            for st in b['stmts']:
+                if st['rv']['k'] == 'agg' and st['rv'].get('adt') == 'std::option::Option' and st['rv'].get('variant') == 'None' and not st['lhs']['p'] and f.locals[st['lhs']['l']]['ty'] == rty:
+                    nonep.add(bi)
+        bad = []
+        n = 0
+        for bi in range(f.n):
+            se = f.switch_edges(bi)
+            if not se or f.blocks[bi]['cleanup']:
+                continue
+            d = se[0]
+            s_ = short(d)
+            if not any(isinstance(x, tuple) and x[0] == 'entry' and any(y in short(x) for y in ('.ip.', '.port.')) and 'arg' in short(x) for x in walk(d)):
+                continue
+            # Option-is-None safety checks: eq(&x, &None) or a discriminant of the Option itself
+            if ('eq(' in s_ and 'Option::None' in s_) or (isinstance(d, tuple) and d[0] == 'discr' and isinstance(d[1], tuple) and d[1][0] == 'entry' and
+                                                           Fn.path_of(d[1][1])[-1:] in ([('f', 'src')], [('f', 'dst')])):
+                continue
+            n += 1
+            kinds = []
+            for (succ_, v) in se[1]:
+                r_ = f.reachable(succ_)
+                kinds.append((bool(r_ & sp), bool(r_ & nonep)))
+            can_answer = [k[0] for k in kinds]
+            only_none = [k[1] and not k[0] for k in kinds]
+            if any(can_answer) and any(only_none):
+                bad.append(s_[:100])
+        if fid.startswith('<proto::dns') or not sp:
+            # functions without an Option result at this level (Vec-returning builders): nothing to decide
+            pass
+        rep.check(r3, not bad, fid + ':no-address-dependent-silence', '%d branches on address/port values; branches where one side can only be silent: %s' % (n, bad), '%s:%d' % (f.file, f.line))
